@@ -25,6 +25,7 @@ const (
 	FaultErr                     // reader sees a custom error
 	FaultReset                   // reader sees ECONNRESET-like error, writer too
 	FaultStall                   // reader blocks until its end is closed
+	FaultTemporary               // ONE Read fails with a net.Error whose Temporary() is true; later Reads deliver on
 )
 
 var ErrInjected = errors.New("xport: injected transport error")
@@ -73,6 +74,8 @@ type pipe struct {
 	written   int64
 	cutIdx    int
 	rdeadline time.Time
+	wdeadline time.Time
+	wtimer    *time.Timer
 	rtimer    *time.Timer
 	tap       []byte
 	faultHit  bool
@@ -99,6 +102,13 @@ func (p *pipe) next() uint64 {
 	z = (z ^ (z >> 27)) * 0x94D049BB133111EB
 	return z ^ (z >> 31)
 }
+
+// tempErr is a transient transport error (net.Error with Temporary() == true, not a timeout).
+type tempErr struct{}
+
+func (tempErr) Error() string   { return "xport: transient failure (temporary)" }
+func (tempErr) Timeout() bool   { return false }
+func (tempErr) Temporary() bool { return true }
 
 type timeoutErr struct{}
 
@@ -136,6 +146,11 @@ func (p *pipe) read(b []byte) (int, error) {
 					if p.onEvent != nil {
 						p.onEvent("fault", p.delivered)
 					}
+				}
+				if f.Kind == FaultTemporary {
+					// one transient failure, then the stream goes on
+					p.plan.Fault = Fault{}
+					return 0, tempErr{}
 				}
 				switch f.Kind {
 				case FaultEOF:
@@ -228,6 +243,10 @@ func (p *pipe) write(b []byte) (int, error) {
 			}
 		}
 		for {
+			if !p.wdeadline.IsZero() && !time.Now().Before(p.wdeadline) {
+				p.mu.Unlock()
+				return total, timeoutErr{}
+			}
 			if p.wclosed {
 				p.mu.Unlock()
 				return total, io.ErrClosedPipe
@@ -464,6 +483,7 @@ func (e *End) RemoteAddr() net.Addr { return addr("xport-peer-of-" + e.name) }
 
 func (e *End) SetDeadline(t time.Time) error {
 	e.SetReadDeadline(t)
+	e.SetWriteDeadline(t)
 	return nil
 }
 
@@ -491,6 +511,30 @@ func (e *End) SetReadDeadline(t time.Time) error {
 	return nil
 }
 
-func (e *End) SetWriteDeadline(t time.Time) error { return nil }
+// SetWriteDeadline works like a socket's: once the deadline has passed every Write (also one that is blocked)
+// fails with a timeout error until the deadline is changed.
+func (e *End) SetWriteDeadline(t time.Time) error {
+	p := e.w
+	p.mu.Lock()
+	defer p.mu.Unlock()
+	p.wdeadline = t
+	if p.wtimer != nil {
+		p.wtimer.Stop()
+		p.wtimer = nil
+	}
+	if !t.IsZero() {
+		d := time.Until(t)
+		if d <= 0 {
+			p.cond.Broadcast()
+		} else {
+			p.wtimer = time.AfterFunc(d, func() {
+				p.mu.Lock()
+				p.cond.Broadcast()
+				p.mu.Unlock()
+			})
+		}
+	}
+	return nil
+}
 
 var _ net.Conn = (*End)(nil)
